@@ -387,7 +387,9 @@ class Kernel:
             self._end("capped", {})
         self._record(me, label, sync)
         me.pred = None
-        nxt = self._pick(me, label, anchored)
+        # for the "pre-empt at anchors" strategy every synchronisation point counts as an anchor, not only the
+        # source lines a property module has named
+        nxt = self._pick(me, label, anchored or sync)
         self._handoff(me, nxt)
 
     def defer(self, label=""):
